@@ -1,4 +1,6 @@
 -- Root of the `Relsad` library: executable models (no Mathlib), lemmas and property theorems.
 import Relsad.Model.TimeM
 import Relsad.Model.Increments
+import Relsad.Model.Battery
 import Relsad.Props.C17
+import Relsad.Props.C11
